@@ -3764,6 +3764,7 @@ func (fastpathDTBincBytes) DecSliceIntfY(v []interface{}, d *decoderBincBytes) (
 	hasLen := containerLenS >= 0
 	var j int
 	fnv := func(dst []interface{}) { v, changed = dst, true }
+	len0 := len(v)
 	for ; d.containerNext(j, containerLenS, hasLen); j++ {
 		if j == 0 {
 			if containerLenS == len(v) {
@@ -3789,7 +3790,11 @@ func (fastpathDTBincBytes) DecSliceIntfY(v []interface{}, d *decoderBincBytes) (
 		if j >= len(v) {
 			fnv(append(v, nil))
 		}
+		if j >= len0 {
+			v[uint(j)] = nil
+		}
 		d.decode(&v[uint(j)])
+
 	}
 	if j < len(v) {
 		fnv(v[:uint(j)])
@@ -9999,6 +10004,7 @@ func (fastpathDTBincIO) DecSliceIntfY(v []interface{}, d *decoderBincIO) (v2 []i
 	hasLen := containerLenS >= 0
 	var j int
 	fnv := func(dst []interface{}) { v, changed = dst, true }
+	len0 := len(v)
 	for ; d.containerNext(j, containerLenS, hasLen); j++ {
 		if j == 0 {
 			if containerLenS == len(v) {
@@ -10024,7 +10030,11 @@ func (fastpathDTBincIO) DecSliceIntfY(v []interface{}, d *decoderBincIO) (v2 []i
 		if j >= len(v) {
 			fnv(append(v, nil))
 		}
+		if j >= len0 {
+			v[uint(j)] = nil
+		}
 		d.decode(&v[uint(j)])
+
 	}
 	if j < len(v) {
 		fnv(v[:uint(j)])
